@@ -49,16 +49,20 @@ CallsOf(v, sig) ==
 Init == phase = "start" /\ main = <<>> /\ libs = <<>> /\ cal = <<>> /\ named = <<>> /\ tag = <<>>
 PickJar ==
     /\ phase = "start"
-    /\ \E sig \in Sigs, acc \in AccVariants, cv \in CallVariants, home \in TypeHomes :
+    /\ \E sig \in Sigs, acc \in AccVariants, cv \in CallVariants, home \in TypeHomes, twin \in BOOLEAN :
+        \* twin: Base has a bridge of its own to Base.t, and Sub's bridge delegates to Base.t too - two bridges in two classes, one delegate
+        /\ (twin => cv = "base" /\ acc = {"synthetic", "bridge"} /\ home \in {"main", "nowhere"})
         /\ main' = ("Top" :> Cls(OBJECT, <<>>, <<Meth("br", sig[1], {"abstract"}, FALSE, {})>>))
-                   @@ ("Base" :> Cls("Top", <<>>, <<Meth("br", sig[1], {"abstract"}, FALSE, {}), Meth("t", sig[2], {}, TRUE, {})>>))
+                   @@ ("Base" :> Cls("Top", <<>>, <<IF twin THEN Meth("br", sig[1], {"synthetic", "bridge"}, TRUE, {<<"Base", "t", sig[2]>>})
+                                                     ELSE Meth("br", sig[1], {"abstract"}, FALSE, {}),
+                                                   Meth("t", sig[2], {}, TRUE, {})>>))
                    @@ ("Sub" :> Cls("Base", <<"Itf">>, <<Meth("br", sig[1], acc, cv # "nocode", CallsOf(cv, sig)),
                                                          Meth("t", sig[2], {}, TRUE, {}),
                                                          Meth("u", "()V", {"synthetic"}, TRUE, {})>>))
                    @@ (IF home = "main" THEN TypeClasses ELSE IF home = "onlyA" THEN ("A" :> Cls("B", <<>>, <<>>))
                        ELSE IF home = "diamond" THEN DiamondClasses ELSE <<>>)
         /\ libs' = ("Itf" :> Cls(OBJECT, <<>>, <<>>)) @@ (IF home = "lib" THEN TypeClasses ELSE <<>>)
-        /\ tag' = [sig |-> sig, acc |-> acc, cv |-> cv, home |-> home]
+        /\ tag' = [sig |-> sig, acc |-> acc, cv |-> cv, home |-> home, twin |-> twin]
     /\ phase' = "jar" /\ UNCHANGED <<cal, named>>
 
 NSC == <<"official", "intermediary">>
@@ -109,9 +113,11 @@ InvPredicate ==
            /\ (tag.cv \in {"none", "two", "ctor", "nocode"} => ~q)
            /\ ({"synthetic", "bridge"} \subseteq tag.acc /\ tag.cv \in {"delegate", "base", "outside"} => q)
 
+(* a set has no order: the driver's list may come in any (sets of up to two pairs occur) *)
+Orders(S) == IF Cardinality(S) = 2 THEN LET x == CHOOSE x \in S : TRUE  y == CHOOSE y \in S \ {x} : TRUE IN {<<x, y>>, <<y, x>>} ELSE {SetSeq(S)}
 Emit ==
     phase = "case" =>
-        /\ PrintT(ToJson([op |-> "bridges", main |-> main, tag |-> tag, any |-> (Bridges(main) # {}), exp |-> SetSeq(Bridges(main))]))
+        /\ PrintT(ToJson([op |-> "bridges", main |-> main, tag |-> tag, any |-> (Bridges(main) # {}), exp |-> [anyof |-> SetSeq(Orders(Bridges(main)))]]))
         /\ PrintT(ToJson([op |-> "mappings", main |-> main, libs |-> libs, cal |-> cal, named |-> named, tag |-> tag,
                           any |-> (Relevant(named, Updates(main, libs, cal, named)) # {}),
                           exp |-> Ok(Result(main, libs, cal, named))]))
